@@ -33,6 +33,15 @@ var closedBlocks = []string{
 	"<script>\nvar x = 1;\n\n</script>\n", "<pre>\n\n*a*\n</pre>\n", "<!-- c\n\nd -->\n", "<!-- one line -->\n", "<?php\n\necho 1;\n?>\n", "<!DOCTYPE html>\n", "<![CDATA[\n\nx\n]]>\n", "<style>p{}</style>\n",
 	"<div>\n*a*\n</div>\n\n", "<div>\n\n", "<table><tr><td>\nx\n</td></tr></table>\n\n", "<x-y a=\"b\">\nfoo\n\n", "</div>\n\n", "<a href=\"u\">\n\n",
 	"    code\n\npara\n", "\tcode\n    more\n\nend\n", "- item\n\n      code\n\n  text\n", "- a\n- b\n", "1. a\n\n   b\n2. c\n", "> q\n> r\n", "> - a\n>   b\n", "# h\n", "a\n===\n", "***\n", "|a|b|\n|-|-|\n|c|d|\n", "- [ ] t\n- [x] u\n", "|a|\n|-|\n| `x` \\| y |\n", "`x\\|y` | z\n--|--|--\n", "|a|b|\n|-|-|\n|`c\\|d`|e\\|f|\n", "|h|\n|-|\n|`p\\|q`|\n", "~~s~~ www.a.bc\n", "a  \nb\\\nc\n",
+	// header-only tables whose delimiter row ends in a one-character cell or a colon (end-of-input arithmetic)
+	"a | b\n-|-\n", "a | b\n:- | -:\n", "|a|b|\n|-|:-:\n", "a|b\n:-:|-\n",
+}
+
+func init() {
+	// towers of containers still open at the end of the block (depth limits, bookkeeping per open block)
+	for _, n := range []int{20, 33, 40, 70} {
+		closedBlocks = append(closedBlocks, strings.Repeat("- ", n)+"a\n", strings.Repeat("> ", n)+"q\n", strings.Repeat("1. ", n/2)+"b\n", strings.Repeat("> - ", n/2)+"c\n")
+	}
 }
 
 // endsClosed is the syntactic test of the side condition "does not end
